@@ -209,6 +209,42 @@ Fixpoint run (s : state) (ls : list label) : option state :=
 
 Definition reachable (s : state) : Prop := exists ls, run init ls = Some s.
 
+(* ---------- the property's own vocabulary, read off a history (no reference to the health record) ---------- *)
+(* failed calls on adapter ai since it was created / last reinstated *)
+Definition upd_fails (ai : N) (acc : Z) (l : label) : Z :=
+  match l with
+  | Out aj false _ => if N.eqb aj ai then acc + 1 else acc
+  | Reinstate aj => if N.eqb aj ai then 0 else acc
+  | _ => acc
+  end.
+Definition fails_since (ai : N) (ls : list label) : Z := fold_left (upd_fails ai) ls 0.
+(* failed calls in a row: no answered call (and no reinstatement) in between *)
+Definition upd_streak (ai : N) (acc : Z) (l : label) : Z :=
+  match l with
+  | Out aj ok _ => if N.eqb aj ai then (if ok then 0 else acc + 1) else acc
+  | Reinstate aj => if N.eqb aj ai then 0 else acc
+  | _ => acc
+  end.
+Definition streak (ai : N) (ls : list label) : Z := fold_left (upd_streak ai) ls 0.
+(* the clock, and the time of the last answered call on ai (0 = never) *)
+Definition upd_clock (c : Z) (l : label) : Z := match l with Advance d => c + Z.of_N d | _ => c end.
+Definition clock (ls : list label) : Z := fold_left upd_clock ls T0.
+Definition upd_lastok (ai : N) (ct : Z * Z) (l : label) : Z * Z :=
+  match l with
+  | Advance d => (fst ct + Z.of_N d, snd ct)
+  | Out aj true _ => if N.eqb aj ai then (fst ct, fst ct) else ct
+  | _ => ct
+  end.
+Definition last_ok (ai : N) (ls : list label) : Z := snd (fold_left (upd_lastok ai) ls (T0, 0)).
+
+(* probe requests: properly spaced per adapter object *)
+Fixpoint spaced (l : list (N * N * Z)) : Prop :=
+  match l with
+  | [] => True
+  | (e, ai, t) :: r => (forall e' t', In (e', ai, t') r -> kTry <= t - t') /\ spaced r
+  end.
+Definition req_count (ai : N) (l : list (N * N * Z)) : nat := length (filter (fun p => N.eqb ai (snd (fst p))) l).
+
 (* ---------- correspondence: observations of the implementation after each step ---------- *)
 Definition cap : Z := 100000.
 Definition age (nw t : Z) : N := Z.to_N (Z.min cap (nw - t)).
